@@ -71,7 +71,7 @@ where
     let hidden: Vec<usize> = (0..n).filter(|i| c.hidden_mask >> i & 1 == 1).collect();
     let cj = |d: Value| json!({"case": c, "key": key.id, "hidden": hidden, "detail": d});
     let mut st = (c.seed as u64) << 6 | 1;
-    let vals: Vec<Integer> = (0..n).map(|i| attr(c.classes[i], &mut st)).collect();
+    let vals: Vec<Integer> = (0..n).map(|i| attr(c.classes[i % c.classes.len()], &mut st)).collect();
     let h = match honest::<CS>(key, n, &hidden, vals.clone(), c.via_blind) {
         Ok(h) => h,
         Err(e) => return rep.fail(ck, "honest-generation-failed", format!("hidden {:?} of {}: {}", hidden, n, e), cj(json!(null))),
@@ -258,6 +258,17 @@ pub fn run(ctx: &Ctx, rep: &Report) -> Meta {
         for mask in 0u8..(1 << n) {
             k += 1;
             fixed.push(Case { key: (k * 9973) as u16, n, hidden_mask: mask, classes: vec![5, 4, (k % 6) as u8, 5, 5], via_blind: k % 4 == 0, seed: (ctx.seed as u32).wrapping_add(k), leaf_edits: ctx.tier.pick(24, 0) });
+        }
+    }
+    for n in [6usize, 8] {
+        for mask in [1u8, 1 << (n - 1), ((1u16 << n) - 1) as u8, 0b10101010 & (((1u16 << n) - 1) as u8), 0b00100100] {
+            k += 1;
+            let mut c = fixed[0].clone();
+            c.key = (k * 9973) as u16;
+            c.n = n;
+            c.hidden_mask = mask;
+            c.seed = (ctx.seed as u32).wrapping_add(500 + k);
+            fixed.push(c);
         }
     }
     par_items(ctx, rep, "every-hidden-set", &fixed, |c| with_cl!(suite, CS => check_one::<CS>(rep, "every-hidden-set", c, &keys)));
